@@ -2376,6 +2376,11 @@ impl TieredEngine {
             self.cache_strategy.invalidate(*doc_id);
         }
 
+        // Bulk load bypasses the hot tier, so a resident mirror of an overwritten document would
+        // keep its pre-load vector and metadata (filtered batch deletes scan mirror metadata).
+        // The mirror is only an accelerator: drop the entries instead of letting them go stale.
+        self.hot_tier.batch_delete(doc_ids);
+
         // L1b caches search results, so bulk loads can change k-NN results even if
         // cached result sets do not explicitly include the newly loaded doc_ids.
         self.query_cache.clear();
